@@ -237,6 +237,13 @@ func programs() [][]op {
 
 func run(c *engine.Ctx) {
 	ensureMachines()
+	if c.Shard == 0 {
+		// the channel / select model of the scheduler is checked against Go's semantics first
+		for _, problem := range engine.SchedSelfCheck() {
+			c.Report(engine.Violation{Key: "harness-scheduler-selfcheck", Witness: problem, Detail: problem})
+		}
+		c.Note("scheduler self-check: 8 concurrent toy programs explored without preemption bound, outcome sets as Go specifies")
+	}
 	progs := programs()
 	bound := 2
 	if !c.Quick() {
